@@ -13,7 +13,7 @@ import (
 func init() {
 	register(&propDef{
 		id: "C12", level: "other", run: runC12,
-		explanation: "Decided: the state discipline of the reference time and the constants, not the arithmetic over sequences. (R1) paired update: every store to decoder.timestamp is followed in the same block by a store to decoder.lastTimeOffset of (the stored timestamp, or the header byte) & 0x1F. (R2) who may re-base: timestamp is stored only in the compressed branch of parseDataMessage and in parseTimeStamp under kind == TimeUTC and field number == 253. (R3) constants/guards: compressedTimeMask == 0x1F, fieldNumTimeStamp == 253; the compressed update has the recognised form ts += (off - last) & mask with off = hdr & mask (other equivalent forms are reported as undecided); the compressed branch is guarded by timestamp != 0 and writes decodeDateTime(timestamp) into field 253; stores into the message in parseTimeStamp are dominated by u32 != 0xFFFFFFFF. (R4) epoch: timeBase is time.Date(1989, December, 31, 0,0,0,0, UTC), never reassigned; decodeDateTime adds dt seconds, encodeTime subtracts and divides by a second; IsBaseTime is Equal(timeBase); the local branch builds FixedZone(_, local - utc in seconds) and returns utc.In(zone), the no-reference branch uses offset 0. NOT decided: rollover arithmetic over long runs as computed values; both byte orders are covered by C02-R1.",
+		explanation: "Decided: the state discipline of the reference time and the constants, not the arithmetic over sequences. (R1) paired update: every store to decoder.timestamp is followed in the same block by a store to decoder.lastTimeOffset of (the stored timestamp, or the header byte) & 0x1F. (R2) who may re-base: timestamp is stored only in the compressed branch of parseDataMessage and in parseTimeStamp under kind == TimeUTC and field number == 253. (R3) constants/guards: compressedTimeMask == 0x1F, fieldNumTimeStamp == 253; the compressed update has the recognised form ts += (off - last) & mask with off = hdr & mask (other equivalent forms are reported as undecided); the compressed branch is guarded by timestamp != 0 and writes decodeDateTime(timestamp) into field 253; stores into the message in parseTimeStamp are dominated by u32 != 0xFFFFFFFF. (R4) epoch: timeBase is time.Date(1989, December, 31, 0,0,0,0, UTC), never reassigned; decodeDateTime adds dt seconds, encodeTime subtracts and divides by a second; IsBaseTime is Equal(timeBase); the local branch builds FixedZone(_, local - utc in seconds) and returns utc.In(zone), the no-reference branch uses offset 0. NOT decided: rollover arithmetic over long runs as computed values; both byte orders are covered by C02-R1. (R3 rebases-every-explicit) the explicit re-base is control-dependent, transitively, only on the invalid-value, kind and field-number tests.",
 		trusted:     []string{"time.Time.Add/Sub/In/Equal and time.FixedZone semantics", "go/ssa dominator tree"},
 	})
 }
@@ -181,8 +181,24 @@ func runC12(c *Ctx, r *Report) {
 					}
 					okGet := false
 					for _, ci := range allCalls(fn) {
-						if f := ci.Common().StaticCallee(); f != nil && f.Name() == "getField" && len(ci.Common().Args) == 2 {
-							if k, ok := ci.Common().Args[1].(*ssa.Const); ok && k.Value != nil && k.Int64() == 253 {
+						call, isCall := ci.(*ssa.Call)
+						if !isCall {
+							continue
+						}
+						var lk *rowLookup
+						if l, ok := rowOf(call); ok {
+							lk = l
+						} else if refs := call.Referrers(); refs != nil {
+							for _, ref := range *refs {
+								if ex, ok := ref.(*ssa.Extract); ok {
+									if l, ok := rowOf(ex); ok {
+										lk = l
+									}
+								}
+							}
+						}
+						if lk != nil {
+							if k, ok := lk.numArg.(*ssa.Const); ok && k.Value != nil && k.Int64() == 253 {
 								okGet = true
 							}
 						}
@@ -207,6 +223,60 @@ func runC12(c *Ctx, r *Report) {
 						}
 					}
 					r.check(okP, "C12-R1-paired-update", key, pos, "followed by lastTimeOffset = timestamp & 0x1F", "a store to decoder.timestamp is not followed by the matching lastTimeOffset update: later compressed-timestamp records advance from a stale 5-bit offset")
+					// every explicit timestamp re-bases: the store may be control-dependent only on the
+					// invalid-value test, the kind test and the field-number test
+					{
+						pd := computePostDom(fn)
+						badCtl := ""
+						nCtl := 0
+						// transitive control dependence
+						targets := map[*ssa.BasicBlock]bool{b: true}
+						var ctl []*ssa.BasicBlock
+						for changed := true; changed; {
+							changed = false
+							for _, a := range fn.Blocks {
+								if len(a.Instrs) == 0 || targets[a] {
+									continue
+								}
+								if _, ok := a.Instrs[len(a.Instrs)-1].(*ssa.If); !ok {
+									continue
+								}
+								for x := range pd.controlled(a) {
+									if targets[x] {
+										targets[a] = true
+										ctl = append(ctl, a)
+										changed = true
+										break
+									}
+								}
+							}
+						}
+						for _, a := range ctl {
+							ifi := a.Instrs[len(a.Instrs)-1].(*ssa.If)
+							nCtl++
+							cp := pathOf(ifi.Cond)
+							okCond := false
+							if bo, ok := ifi.Cond.(*ssa.BinOp); ok && (bo.Op == token.EQL || bo.Op == token.NEQ) {
+								if k, ok := bo.Y.(*ssa.Const); ok && k.Value != nil {
+									x := pathOf(bo.X)
+									switch {
+									case x == "*pfield.num" && k.Int64() == 253:
+										okCond = true
+									case k.Uint64() == 0xFFFFFFFF && bo.X == st.Val:
+										okCond = true
+									default:
+										if cl, ok := bo.X.(*ssa.Call); ok && cl.Common().StaticCallee() != nil && cl.Common().StaticCallee().Name() == "Kind" {
+											okCond = true
+										}
+									}
+								}
+							}
+							if !okCond {
+								badCtl = cp
+							}
+						}
+						r.check(badCtl == "" && nCtl >= 2, "C12-R3-guards", key+"/rebases-every-explicit", pos, "every valid UTC field 253 re-bases the reference (the store depends only on the invalid-value, kind and field-number tests)", "the re-base of the reference time additionally depends on "+badCtl+": an explicit timestamp for which that condition fails leaves the old reference and offset in place, and the compressed records and local times that follow are resolved against a stale reference")
+					}
 					// value is the decoded u32
 					inv, isCall := st.Val.(*ssa.Call)
 					okV := isCall && inv.Common().IsInvoke() && inv.Common().Method.Name() == "Uint32"
